@@ -254,4 +254,7 @@ def run(spec, ctx):
         .hexdigest()[:20]
     if faulted:
         out['faults'] = {'unlink:' + v: 1 for v in spec['faults'].values()}
+    if simos.written:
+        out.setdefault('faults', {})
+        out['faults']['concurrent-writer:source-file-created'] = len(simos.written)
     return out
